@@ -116,8 +116,23 @@ def _path_models(it, exists):
                 out = os.path.join(out, b)
                 continue
             eb = str_expr(b)
-            out = Sym(z3.If(z3.PrefixOf(z3.StringVal("/"), eb), eb,
-                            z3.Concat(str_expr(out), z3.StringVal("/"), eb)))
+            absolute = z3.PrefixOf(z3.StringVal("/"), eb)
+            # decide 'b is absolute' under the path condition when possible (keeps path terms small)
+            verdict = None
+            for val in (True, False):
+                s = z3.Solver()
+                s.set("timeout", 5000)
+                s.add(*it_.pc)
+                s.add(absolute if not val else z3.Not(absolute))
+                if s.check() == z3.unsat:
+                    verdict = val
+                    break
+            if verdict is True:
+                out = Sym(eb)
+            elif verdict is False:
+                out = Sym(z3.Concat(str_expr(out), z3.StringVal("/"), eb))
+            else:
+                out = Sym(z3.If(absolute, eb, z3.Concat(str_expr(out), z3.StringVal("/"), eb)))
         return out
     it.models[os.path.join] = join
     it.models[os.path.exists] = exists
@@ -319,7 +334,11 @@ class MakeDllRun(object):
                 return Sym(b)
             _path_models(it, exists)
             it.models[os.makedirs] = lambda it_, a, k: ev.append(("makedirs", str_expr(a[0]))) or None
-            it.models[os.path.basename] = lambda it_, a, k: Sym(z3.Function("basename", S, S)(str_expr(a[0])))
+            def basename(it_, a, k):
+                t = z3.Function("basename", S, S)(str_expr(a[0]))
+                it_.assume(z3.Not(z3.Contains(t, z3.StringVal("/"))))     # os.path.basename: no separator in the result
+                return Sym(t)
+            it.models[os.path.basename] = basename
             it.models[os.path.dirname] = lambda it_, a, k: Sym(z3.Function("dirname", S, S)(str_expr(a[0])))
 
             def splitext(it_, a, k):
